@@ -252,7 +252,15 @@ Definition op_cw_readfrom (args : list sx) : sx :=
   | _ => bad_args
   end.
 
+(* bver_parse s : version.Parse accepts exactly "b1" and "b2", as spelled *)
+Definition op_bver_parse (args : list sx) : sx :=
+  match args with
+  | [SB s] => if bytes_eqb s (s2b "b1") || bytes_eqb s (s2b "b2") then SL [sym "ok"; SB s] else SL [sym "bad"]
+  | _ => bad_args
+  end.
+
 Definition dispatch_bundle (op : bytes) (args : list sx) : option sx :=
+  if bytes_eqb op (s2b "bver_parse") then Some (op_bver_parse args) else
   if bytes_eqb op (s2b "bundle_write") then Some (op_bundle_write args)
   else if bytes_eqb op (s2b "bundle_read") then Some (op_bundle_read args)
   else if bytes_eqb op (s2b "bundle_read_edit") then Some (op_bundle_read_edit args)
